@@ -47,9 +47,9 @@ func init() {
 var c12Sanctioned = map[string][]string{
 	"guidedremediation/internal/remediation.ConstructPatches": {
 		// end of the patched manifest's requirements
-		"range-end: guidedremediation/internal/manifest.Manifest.Requirements(param1.Manifest)",
+		"range-end: guidedremediation/internal/manifest.Requirements(param1.Manifest)",
 		// the requirement has the same version as the original requirement with the same key: not an update
-		"guidedremediation/internal/manifest.Manifest.Requirements(param1.Manifest)[ι].VersionKey.Version == make(map)[guidedremediation/internal/resolution.MakeRequirementKey(guidedremediation/internal/manifest.Manifest.Requirements(param1.Manifest)[ι])]#0.VersionKey.Version",
+		"guidedremediation/internal/manifest.Requirements(param1.Manifest)[ι].VersionKey.Version == make(map)[guidedremediation/internal/resolution.MakeRequirementKey(guidedremediation/internal/manifest.Requirements(param1.Manifest)[ι])]#0.VersionKey.Version",
 	},
 	"guidedremediation.choosePatches": {
 		"range-end: param0",
@@ -618,7 +618,7 @@ func c12Diff(p *Prog, r *Report) {
 			r.Undecided("D3-update-is-diff", "anchor:"+s.name, "-", "not found")
 			continue
 		}
-		key := fnKey(fn)
+		key := tableKey(c12Sanctioned, fn)
 		sk := s.skips(fn)
 		sort.Strings(sk)
 		if learn {
@@ -666,8 +666,7 @@ func c12Diff(p *Prog, r *Report) {
 				return
 			}
 			nApp++
-			c := in.(*ssa.Call)
-			for _, a := range flattenVariadic(c.Call.Args[1:]) {
+			for _, a := range collectedValues(in) {
 				if rootParam(a) == ssa.Value(ch.Params[0]) && cellOf(a).idx != nil || elementOfParam(a, ch.Params[0]) {
 					okE = true
 				}
